@@ -4,7 +4,7 @@
 #    patch applies, suite passes, demo fails with it and passes without it
 # 2. run all checks against the patched tree (evidence redirected to /tmp)
 ID=$1
-SRC=${2:-${SEED_BASE:-/tmp/w2}/$ID}
+SRC=${2:-${SEED_BASE:-/tmp/w3}/$ID}
 CF=/tmp/cf_$ID
 rm -rf $CF; git -C /repo worktree prune
 git -C /repo worktree add -q --detach $CF HEAD || exit 9
